@@ -1,5 +1,8 @@
 """C04 — no client input can crash, wedge or hang the server.
-Theorems: Props/C04.lean (model total; every registered command modelled — regenerated fact F1; accepted traces end with no stripe held).
+Theorems: Props/C04.lean (model total; every registered command modelled — regenerated fact F1; accepted traces end with no stripe held);
+Props/C04Sites.lean (regenerated fact F3: every guarded index / slice / division site of the Go source lies within the length its dominating
+guards guarantee, the unguarded ones equal a reviewed inventory).  When F3 breaks, the enumeration is aimed at the commands whose executors
+hold the offending sites; a crash found is reported with its replay, otherwise `no-failing-input-found` names the theorem.
 Tie: the property's own quantifier — bounded-exhaustive (command x arity x adversarial alphabet x key of each type) through the real
 executors with hook H2 recording; every outcome is compared with the total Lean model, so PANIC / HANG / nil replies, wrong replies and
 unbalanced locks are all mismatches; then the same vectors' survivors: later commands on the same and other keys still answer."""
@@ -60,6 +63,47 @@ def vectors(rng, commands, tier):
     return vecs
 
 
+SMALL = [b"", b"0", b"1", b"-1", b"a", b"nx", b"count", b"limit", b"withscores", b"rank", b"maxlen", b"*", b"left"]
+
+
+def directed(rng, fx, broken):
+    """vectors aimed at the executors that hold a site F3 no longer closes: for a constant-bound site every command length between what
+    the guards guarantee and what the access needs, exhaustively over the keys and a small alphabet; otherwise every length 1..8 sampled"""
+    by_fn = {}
+    for name, fn in (fx.get("commands") or {}).items():
+        by_fn.setdefault(fn, []).append(name)
+    targets = {}    # command -> set of total lengths (None = all)
+    for s in broken.get("const", []):
+        for c in by_fn.get(s["func"], []):
+            targets.setdefault(c, set()).update(range(max(1, s["minlen"]), max(s["needed"], s["minlen"] + 1)))
+    for s in broken.get("rel", []) + broken.get("new_dynamic", []):
+        for c in by_fn.get(s["func"], []):
+            targets.setdefault(c, set()).update(range(1, 9))
+    vecs = []
+    for c, lens in sorted(targets.items()):
+        if c in EXCLUDE:
+            continue
+        name = c.encode()
+        for n in sorted(lens):
+            nargs = n - 1
+            if nargs == 0:
+                vecs.append([name])
+                continue
+            combos = len(KEYS) * len(SMALL) ** (nargs - 1)
+            if combos <= 2500:
+                for k in KEYS:
+                    for rest in itertools.product(SMALL, repeat=nargs - 1):
+                        vecs.append([name, k] + list(rest))
+            else:
+                for _ in range(2500):
+                    vecs.append([name, rng.choice(KEYS)] + [rng.choice(SMALL + ALPHA) for _ in range(nargs - 1)])
+        if c in BLOCKING:
+            for v in vecs:
+                if v[0] == name and len(v) > 2:
+                    v[-1] = b"0.05"
+    return vecs, sorted(targets)
+
+
 def run(R, ctx):
     fx = facts.extract()
     commands = sorted(fx["commands"]) if fx else []
@@ -67,6 +111,12 @@ def run(R, ctx):
              "facts", bool(commands), "%d commands" % len(commands))
     rng = random.Random(R.seed * 31 + 4)
     vecs = vectors(rng, commands, R.tier)
+    broken = getattr(R, "sites_broken", None)
+    aimed = []
+    if broken and fx:
+        extra_vecs, aimed = directed(rng, fx, broken)
+        vecs += extra_vecs
+        R.extra["f3_directed"] = dict(commands=aimed, vectors=len(extra_vecs))
     rng.shuffle(vecs)
     lines = []
     per = 25
@@ -92,6 +142,17 @@ def run(R, ctx):
                                   "each program seeds the keys, reads each of them once, runs 25 vectors, then writes to every seeded key and probes that old and new keys still answer" % len(ALPHA),
                              extra_lines=lines, events=True,
                              shards=([1] if R.tier == "quick" else [1, 2, 1024]))   # ShardNum 1: two lock stripes, so distinct keys collide
+    if broken and not any(found for _p, _s, found in R.violations):
+        # fact F3 is broken and neither the enumeration nor the vectors aimed at the offending executors produced a crash: say which site, not
+        # only which theorem (the suite's generic `proof-broken` entry is replaced when everything that broke is Props/C04Sites)
+        if all(t.startswith("Sites.") for t, _ in getattr(ctx, "broken", [])):
+            R.violations = [v for v in R.violations if not v[0].endswith("/proof-broken.json")]
+        msgs = [m for f, ms in getattr(R, "facts_broken", []) if f == "F3" for m in ms]
+        R.violation("f3-sites", dict(kind="proof-broken", broken=msgs, theorems=["Sites.const_sites_safe", "Sites.rel_sites_safe",
+                                                                                  "Sites.executor_entry_safe", "Sites.dynamic_inventory"],
+                                     summary="index-safety obligation of Props/C04Sites no longer holds for the regenerated source facts: " + "; ".join(msgs)[:700] +
+                                             " — no crashing vector found (enumeration + %d command(s) targeted: %s)" % (len(aimed), ",".join(aimed) or "none is a registered executor")),
+                    found_input=False)
     R.extra["enumeration"] = dict(commands=len(commands), vectors=len(vecs), alphabet=len(ALPHA), keys=len(KEYS), exhaustive_arity_le=2, exhaustive=False)
 
 
